@@ -477,14 +477,15 @@ class MeiParser(object):
         name = label_el.text if label_el is not None else None
         id = staffgroup_el.attrib[self._ns_name("id", XML_NAMESPACE)]
         staff_group = score.PartGroup(group_symbol, group_name=name, id=id)
-        staves_el = staffgroup_el.findall(self._ns_name("staffDef"))
-        for s_el in staves_el:
-            new_part = self._handle_initial_staffdef(s_el)
-            staff_group.children.append(new_part)
-        staff_groups_el = staffgroup_el.findall(self._ns_name("staffGrp"))
-        for sg_el in staff_groups_el:
-            new_staffgroup = self._handle_staffgroup(sg_el)
-            staff_group.children.append(new_staffgroup)
+        # staves and nested groups in document order: the staff elements
+        # of the measures are assigned to the parts in this order
+        for child_el in staffgroup_el:
+            if child_el.tag == self._ns_name("staffDef"):
+                new_part = self._handle_initial_staffdef(child_el)
+                staff_group.children.append(new_part)
+            elif child_el.tag == self._ns_name("staffGrp"):
+                new_staffgroup = self._handle_staffgroup(child_el)
+                staff_group.children.append(new_staffgroup)
         return staff_group
 
     def _handle_main_staff_group(self, main_staffgrp_el):
@@ -500,19 +501,18 @@ class MeiParser(object):
         part_list : list
             Created list of parts filled with key and time signature information.
         """
-        staves_el = main_staffgrp_el.findall(self._ns_name("staffDef"))
-        staff_groups_el = main_staffgrp_el.findall(self._ns_name("staffGrp"))
         # the list of parts or part groups
         part_list = []
-        # process the parts
+        # process the parts and the part groups in document order: the staff
+        # elements of the measures are assigned to the parts in this order
         # TODO add Parallelization to handle part parsing in parallel
-        for s_el in staves_el:
-            new_part = self._handle_initial_staffdef(s_el)
-            part_list.append(new_part)
-        # process the part groups
-        for sg_el in staff_groups_el:
-            new_staffgroup = self._handle_staffgroup(sg_el)
-            part_list.append(new_staffgroup)
+        for child_el in main_staffgrp_el:
+            if child_el.tag == self._ns_name("staffDef"):
+                new_part = self._handle_initial_staffdef(child_el)
+                part_list.append(new_part)
+            elif child_el.tag == self._ns_name("staffGrp"):
+                new_staffgroup = self._handle_staffgroup(child_el)
+                part_list.append(new_staffgroup)
         return part_list
 
     # functions to parse the content of parts
